@@ -30,7 +30,7 @@ fn mk_key(i: usize) -> Key {
         0 => Key::from_parts("c_one", vec![Label::new("a", "1"), Label::new("b", "2")]),
         1 => Key::from_static_parts("c_one", &L_BA),
         2 => Key::from_name("c_two"),
-        3 => Key::from_parts("g_one", vec![Label::new("a", "1")]),
+        3 => Key::from_parts("g_one", vec![Label::new("a", "1"), Label::new("d-c", "K")]),
         4 => Key::from_name("g_two"),
         5 => Key::from_parts("h_one", vec![Label::new("a", "1"), Label::new("b", "2")]),
         6 => Key::from_static_parts("h_one", &L_BA),
@@ -39,11 +39,15 @@ fn mk_key(i: usize) -> Key {
 }
 fn series(i: usize, global: &[(&str, &str)]) -> (String, Vec<(String, String)>) {
     let k = mk_key(i);
+    // override happens on the label names as written; the exposition shows them sanitised ([a-zA-Z_][a-zA-Z0-9_]*)
     let mut m: BTreeMap<String, String> = global.iter().map(|(a, b)| (a.to_string(), b.to_string())).collect();
     for l in k.labels() {
         m.insert(l.key().to_string(), l.value().to_string());
     }
-    (k.name().to_string(), m.into_iter().collect())
+    let san = |n: &str| -> String { n.chars().enumerate().map(|(i, c)| if c.is_ascii_alphabetic() || c == '_' || (i > 0 && c.is_ascii_digit()) { c } else { '_' }).collect() };
+    let mut v: Vec<(String, String)> = m.into_iter().map(|(k, v)| (san(&k), v)).collect();
+    v.sort();
+    (k.name().to_string(), v)
 }
 
 fn alphabet() -> Vec<Op> {
@@ -86,7 +90,7 @@ fn build(cfg: Config) -> (PrometheusRecorder, Vec<(&'static str, &'static str)>)
         Config::Default => (b.build_recorder(), vec![]),
         Config::GlobalBuckets => (b.set_buckets(&[1.0, 4.0]).unwrap().build_recorder(), vec![]),
         Config::OverrideH1 => (b.set_buckets_for_metric(Matcher::Full("h_one".into()), &[0.5, 2.0]).unwrap().build_recorder(), vec![]),
-        Config::GlobalLabels => (b.add_global_label("env", "prod").add_global_label("a", "G").build_recorder(), vec![("env", "prod"), ("a", "G")]),
+        Config::GlobalLabels => (b.add_global_label("env", "prod").add_global_label("a", "G").add_global_label("d-c", "G2").build_recorder(), vec![("env", "prod"), ("a", "G"), ("d-c", "G2")]),
         Config::Quantiles => (b.set_quantiles(&[0.5]).unwrap().build_recorder(), vec![]),
         Config::UnitSuffix => (b.set_enable_unit_suffix(true).build_recorder(), vec![]),
     }
